@@ -208,6 +208,27 @@ def main(args):
             ck.count((rec["d"], repr(S), repr(S2), repr(I)), bool(plain))
             if len(ck.samples) < 3 and plain:
                 ck.sample(real[rec["id"]])
+    # the OTHER drafts' identifier keyword carrying a plain name ("#item"): it names nothing in this draft, so a
+    # reference "#item" / "#/item" keeps designating what it designated before the keyword was inserted
+    rid = 10 ** 7
+    for d in DRAFTS:
+        other_id = "$id" if d <= 4 else "id"
+        for ref in ("#item", "#/item", "#/definitions/item"):
+            S = {"properties": {"p": {"$ref": ref}, "q": {"type": "integer"}}, "item": {"type": "string"},
+                 "definitions": {"item": {"type": "null"}, "other": {"minimum": 3}}}
+            for where in (("properties", "q"), ("definitions", "other"), ()):
+                S2 = insert_at(S, where, other_id, "#item")
+                for I in ({"p": 1, "q": "x"}, {"p": "s", "q": 1}, {"p": None}):
+                    rid += 1
+                    try:
+                        rec, plain = errrec.make_record(rid, d, _cls()[d], S, I, alt=S2)
+                    except Exception as e:  # noqa
+                        ck.violation("foreign_keyword_makes_validation_raise", {"draft": d, "schema": S, "schema_with_foreign": S2,
+                                                                                "instance": I, "exception": "%s: %s" % (type(e).__name__, str(e)[:100])})
+                        continue
+                    recs.append(rec)
+                    real[rid] = {"draft": d, "schema": S, "schema_with_foreign": S2, "instance": I, "errors_before": plain}
+                    ck.count((d, repr(S), repr(S2), repr(I)), bool(plain))
     wd = tlc.workdir("c10lib")
     lib = calibrate.write_lib(wd + "/lib.json")
     bad, states = tlc.validate_trace("trace/Trace_Errors.tla", recs, "c10", shards=16, env={"LIB_FILE": lib})
